@@ -99,74 +99,178 @@ def _pending(client, skip) -> int:
     return total
 
 
-async def _run_one(chunks):
-    """one client, one _receive_impl call per chunk (more if the code reads less than the chunk). Per call:
-    {'read': the bytes the call got, 'pk': [[bytes handed to decode_usb, reached _decode, message returned, raised]],
-    'pending': int, 'cb': [messages the receive callback got], 'exc': repr or None}"""
-    from nmea2000.ioclient import WaveShareNmea2000Gateway
-    c = WaveShareNmea2000Gateway("/dev/null")
-    rd = _Reader()
-    c.reader = rd
-    c._buffer = bytearray()
-    dec = c.decoder
-    orig_usb, orig_dec = dec.decode_usb, dec._decode
-    st = {"reached": False, "cur": []}
+class _Writer:
+    def write(self, data):
+        pass
 
-    def w_decode(*a, **k):
-        st["reached"] = True
-        return orig_dec(*a, **k)
+    async def drain(self):
+        return
 
-    def w_usb(packet):
-        st["reached"] = False
-        rec = [bytes(packet), False, False, False]
-        st["cur"].append(rec)
+    def close(self):
+        pass
+
+    def is_closing(self):
+        return False
+
+    async def wait_closed(self):
+        return
+
+
+class _Port:
+    """one real WaveShare client on a scripted serial port, opened through the client's own _connect_impl (so whatever
+    the client sets up for a new connection is set up by the client, not by the harness)"""
+
+    async def open(self):
+        import serial_asyncio
+        from nmea2000.ioclient import WaveShareNmea2000Gateway
+        self.c = c = WaveShareNmea2000Gateway("/dev/null")
+        self.rd = rd = _Reader()
+
+        async def fake_open(*a, **k):
+            return rd, _Writer()
+
+        saved = serial_asyncio.open_serial_connection
+        serial_asyncio.open_serial_connection = fake_open
         try:
-            m = orig_usb(packet)
-        except BaseException:
-            rec[1], rec[3] = st["reached"], True
-            raise
-        rec[1], rec[2] = st["reached"], m is not None
-        return m
+            await c._connect_impl()
+        finally:
+            serial_asyncio.open_serial_connection = saved
+        dec = c.decoder
+        orig_usb, orig_dec = dec.decode_usb, dec._decode
+        self.st = st = {"reached": False, "cur": []}
 
-    dec._decode, dec.decode_usb = w_decode, w_usb
-    got = []
+        def w_decode(*a, **k):
+            st["reached"] = True
+            return orig_dec(*a, **k)
 
-    async def cb(m):
-        got.append(m)
+        def w_usb(packet):
+            st["reached"] = False
+            rec = [bytes(packet), False, False, False]
+            st["cur"].append(rec)
+            try:
+                m = orig_usb(packet)
+            except BaseException:
+                rec[1], rec[3] = st["reached"], True
+                raise
+            rec[1], rec[2] = st["reached"], m is not None
+            return m
 
-    c.set_receive_callback(cb)
-    steps = []
-    try:
-        for ch in chunks:
-            rd.push(bytes(ch))
-            guard = 0
-            while rd.data and guard < 200:      # one call per scripted read unless the code asks for fewer bytes
-                guard += 1
-                st["cur"] = []
-                rd.last = b""
-                n0 = len(got)
-                exc = None
-                try:
-                    await c._receive_impl()
-                except Exception as e:  # noqa: BLE001
-                    exc = repr(e)
-                try:
-                    await asyncio.wait_for(c.queue.join(), 5)
-                except Exception as e:  # noqa: BLE001
-                    exc = exc or ("consumer: " + repr(e))
-                if not rd.last and exc is None:
-                    exc = "no bytes were read"
-                steps.append({"read": rd.last, "pk": st["cur"], "pending": _pending(c, (rd,)), "cb": got[n0:], "exc": exc})
-                if exc:
-                    return steps
-    finally:
-        t = c._process_queue_task
+        dec._decode, dec.decode_usb = w_decode, w_usb
+        self.got = got = []
+
+        async def cb(m):
+            got.append(m)
+
+        c.set_receive_callback(cb)
+        self.steps = []
+        self.dead = False
+        return self
+
+    async def feed(self, ch):
+        """one scripted read: one _receive_impl call (more if the code reads less than the chunk)"""
+        if self.dead:
+            return
+        c, rd, st, got = self.c, self.rd, self.st, self.got
+        rd.push(bytes(ch))
+        guard = 0
+        while rd.data and guard < 200:
+            guard += 1
+            st["cur"] = []
+            rd.last = b""
+            n0 = len(got)
+            exc = None
+            try:
+                await c._receive_impl()
+            except Exception as e:  # noqa: BLE001
+                exc = repr(e)
+            try:
+                await asyncio.wait_for(c.queue.join(), 5)
+            except Exception as e:  # noqa: BLE001
+                exc = exc or ("consumer: " + repr(e))
+            if not rd.last and exc is None:
+                exc = "no bytes were read"
+            self.steps.append({"read": rd.last, "pk": st["cur"], "pending": _pending(c, (rd,)), "cb": got[n0:], "exc": exc})
+            if exc:
+                self.dead = True
+                return
+
+    async def shut(self):
+        t = self.c._process_queue_task
         t.cancel()
         try:
             await t
         except BaseException:  # noqa: BLE001
             pass
-    return steps
+
+
+async def _run_one(chunks):
+    """one client, one _receive_impl call per chunk (more if the code reads less than the chunk). Per call:
+    {'read': the bytes the call got, 'pk': [[bytes handed to decode_usb, reached _decode, message returned, raised]],
+    'pending': int, 'cb': [messages the receive callback got], 'exc': repr or None}"""
+    p = await _Port().open()
+    try:
+        for ch in chunks:
+            await p.feed(ch)
+    finally:
+        await p.shut()
+    return p.steps
+
+
+async def _run_ports(scripts, order, reopen_at=None):
+    """several ports alive at once: scripts[k] = reads of port k, order = which port reads next. reopen_at = a position
+    in `order` at which one more client is created and connected (its construction must not disturb the others)."""
+    ports = [await _Port().open() for _ in scripts]
+    extra = []
+    pos = [0] * len(scripts)
+    try:
+        for n, k in enumerate(order):
+            if reopen_at is not None and n == reopen_at:
+                extra.append(await _Port().open())
+            if pos[k] < len(scripts[k]):
+                await ports[k].feed(scripts[k][pos[k]])
+                pos[k] += 1
+    finally:
+        for p in ports + extra:
+            await p.shut()
+    return [p.steps for p in ports]
+
+
+def _ports_oracle(ctx, rng, only=None):
+    """C20 holds for every port when several serial gateways are used by one process: each port's stream is judged by
+    the single-port oracle on what that port's client did."""
+    def judge(sess, order, reopen_at):
+        runs = asyncio.run(_run_ports([reads for _, reads in sess], order, reopen_at))
+        for k, ((segs, reads), steps) in enumerate(zip(sess, runs)):
+            done = sum(len(x["read"]) for x in steps)
+            if any(x["exc"] for x in steps) or done == sum(map(len, reads)):
+                w = _oracle(segs, reads, steps)
+                if w:
+                    return k, w
+        return None
+    if only is not None:
+        sess = [([(t, bytes.fromhex(b)) for t, b in segs], [bytes.fromhex(x) for x in reads]) for segs, reads in only["ports"]]
+        return judge(sess, only["order"], only.get("reopen_at"))
+    for _ in range(ctx.n(10, 150)):
+        nports = rng.choice([2, 2, 3])
+        sess = []
+        for _ in range(nports):
+            segs = _gen_segments(rng, rng.randint(2, 6), noise_p=rng.choice([0.0, 0.0, 0.4]), kinds=("free",))
+            stream = _stream(segs)
+            sess.append((segs, rng.choice(_segmentations(rng, stream, 2))))
+        order = [k for k, (_, r) in enumerate(sess) for _ in r]
+        rng.shuffle(order)
+        reopen_at = rng.choice([None, rng.randrange(len(order) + 1)])
+        r = judge(sess, order, reopen_at)
+        if r:
+            k, w = r
+            w = dict(w)
+            w["key"] = "ports:" + w["key"]
+            w["what"] = (f"{nports} serial gateways alive in one process, port {k}: " + w["what"]
+                         + (f" (another gateway was opened after read {reopen_at})" if reopen_at is not None else ""))
+            w.update(kind="ports", order=order, reopen_at=reopen_at,
+                     ports=[[[[t, b.hex()] for t, b in segs], [c.hex() for c in reads]] for segs, reads in sess])
+            return w
+    return None
 
 
 def _run_sessions(sessions):
@@ -741,6 +845,10 @@ def search(ctx):
             keys.add(w["key"])
             w.update(kind="bound", flavour=flavour, n=n if read == 100 else n // 5, read=read)
             out.append(w)
+    w = _ports_oracle(ctx, rng)
+    if w and w["key"] not in keys:
+        keys.add(w["key"])
+        out.append(w)
     # then structured sessions; those the correspondence disagreed on first (their construction is known)
     hinted = []
     for h in ctx.hints:
@@ -762,6 +870,9 @@ def replay(ctx, data):
     w = data.get("witness", data)
     if w.get("kind") == "bound":
         r = _bound_run(w["flavour"], int(w["n"]), int(w["read"]))
+    elif w.get("kind") == "ports":
+        r = _ports_oracle(ctx, ctx.rng, only=w)
+        r = r and r[1]
     else:
         segs = [(t, bytes.fromhex(b)) for t, b in w["segs"]]
         reads = [bytes.fromhex(x) for x in w["reads"]]
